@@ -101,6 +101,7 @@ type simConn struct {
 	closed  bool
 	pend    []byte // rest of a chunk that did not fit the slice
 	written []byte // every byte accepted
+	closedCh chan struct{} // closed together with the connection (optional)
 }
 
 func (c *simConn) Read(p []byte) (int, error) {
@@ -177,7 +178,7 @@ func (c *simConn) Write(p []byte) (int, error) {
 	}
 	e.N = a.n
 	if a.kind == wClosed {
-		c.closed = true // somebody closed the connection
+		c.markClosed() // somebody closed the connection
 	}
 	c.written = append(c.written, p[:a.n]...)
 	c.log.add(e)
@@ -196,9 +197,16 @@ func (c *simConn) Write(p []byte) (int, error) {
 func (c *simConn) Close() error {
 	c.mu.Lock()
 	defer c.mu.Unlock()
-	c.closed = true
+	c.markClosed()
 	c.log.add(event{Kind: "close", Conn: c.id})
 	return nil
+}
+
+func (c *simConn) markClosed() {
+	if !c.closed && c.closedCh != nil {
+		close(c.closedCh)
+	}
+	c.closed = true
 }
 
 type simAddr struct{}
